@@ -167,6 +167,37 @@ def build_vendor_specs():
     return S
 
 
+def build_custom_specs():
+    """user-defined gates that implement nothing but _unitary_ (what exporters / simulators / transformers must handle through
+    their generic fall-backs): one and two qubits, Haar-random from an integer seed"""
+    import cirq
+
+    class UnitaryOnlyGate(cirq.Gate):
+        def __init__(self, seed, nq):
+            self.seed, self.nq = seed, nq
+
+        def _num_qubits_(self):
+            return self.nq
+
+        def _unitary_(self):
+            return G.seeded_unitary(self.seed, 2 ** self.nq)
+
+        def __eq__(self, other):
+            return isinstance(other, UnitaryOnlyGate) and (self.seed, self.nq) == (other.seed, other.nq)
+
+        def __hash__(self):
+            return hash((UnitaryOnlyGate, self.seed, self.nq))
+
+        def __repr__(self):
+            return "UnitaryOnlyGate(%d, %d)" % (self.seed, self.nq)
+
+    S = []
+    for nq in (1, 2):
+        S.append(Spec("UnitaryOnly%d" % nq, (2,) * nq, lambda rng: (int(rng.integers(1 << 30)),), lambda p, nq=nq: UnitaryOnlyGate(p[0], nq),
+                      lambda p, nq=nq: G.seeded_unitary(p[0], 2 ** nq), tags=("custom", "%dq" % nq)))
+    return S
+
+
 def build_channel_specs():
     import cirq
 
